@@ -106,6 +106,15 @@ CONFIG["C12"] = dict(
     trusted_base=["text/scanner, strconv, unicode (stdlib) modelled in Lean, validated by correspondence"],
 )
 
+CONFIG["C18"] = dict(
+    level_text="The 20 analyzers are modelled as pure total functions of the parsed file (Model/Lint.lean): totality, purity and order-independence hold by construction of the model and are compared with the real analyzers on every run (file dumped before/after, analyzers run in two orders, panics caught). Kernel-checked theorems (Props/C18.lean) prove the state-based analyzers equal to their declarative rules (definitiontypeorder = 'some later definition has a smaller type order'; unique IDs/names = 'an earlier item has the same key'; multiplexer location = first M signal, each further M reported once; singleton and required counts; behaviour on the empty file); the filter-style analyzers are their own declarative rule. Diagnostics (analyzer, position, message class) of model and implementation are compared on clean files, every rule x 1/many seeded violations, rule interactions, degenerate files and arbitrary grammar-derived files.",
+    level_note="Trusted: Lean kernel; Model/Lint.lean validated by correspondence; the parser model of C04 (files are parsed by both sides); message texts are compared up to their dynamic suffix (class).",
+    level="proof",
+    trivial=r"^(parse-error)$",
+    rule="files from the lint-aware generator (harness/internal/ops/lint.go) and the C04 grammar; every parsed file counts as non-trivial (20 analyzers evaluated on it)",
+    trusted_base=["unicode.IsDigit table (shared with C04)", "Go map semantics modelled as list membership"],
+)
+
 PRE_PROVE = {}
 def _unicode_tie(work, impl):
     """the committed unicode tables equal what the toolchain's unicode package says now"""
